@@ -30,6 +30,12 @@ mod tree;
 mod wrappers;
 
 mod ext;
+mod cmd_cps;
+mod cmd_reason;
+mod cmd_segment;
+mod cmd_macro;
+mod cmd_tree;
+mod cmd_prover;
 
 use std::io::{self, BufRead, Write};
 use std::panic::{catch_unwind, AssertUnwindSafe};
